@@ -779,21 +779,29 @@ class Builder:
         return None
 
     # ---------------------------------------------------------- normalisation helpers
-    def resolve_const(self, e, env):
-        """A path naming a `const` of the crate stands for its literal value."""
+    def resolve_const(self, e, env, kinds=("lit",)):
+        """A path naming a `const` of the crate stands for its literal value (with `kinds`: for a value of one of these
+        expression kinds — a character range, an array or a tuple of characters used as a character class)."""
         e0 = strip_refs(e)
         if isinstance(e0, dict) and e0.get("k") == "path" and not (len(e0["segs"]) == 1 and e0["segs"][0] in env and not e0["segs"][0].startswith("__")):
             name = e0["segs"][-1]
             mod = tuple(env.get("__module") or ())
+
+            def val(v):
+                x = strip_refs(v["e"])
+                while isinstance(x, dict) and x.get("k") == "paren":
+                    x = strip_refs(x["e"])
+                return x if isinstance(x, dict) and x.get("k") in kinds else None
+
             if len(e0["segs"]) == 1:
                 # lexical lookup: the enclosing module first, then its ancestors
                 for i in range(len(mod), -1, -1):
                     v = self.facts.consts.get("::".join(mod[:i] + (name,)))
                     if v is not None:
-                        return v["e"] if v["e"].get("k") == "lit" else e
+                        return val(v) or e
             cands = [v for k, v in self.facts.consts.items() if k.split("::")[-1] == name]
-            if len(cands) == 1 and cands[0]["e"].get("k") == "lit":
-                return cands[0]["e"]
+            if len(cands) == 1 and val(cands[0]) is not None:
+                return val(cands[0])
         return e
 
     def as_closure(self, e, env):
@@ -1440,6 +1448,10 @@ class Builder:
             lo, hi = ord(a["from"]["v"]), ord(a["to"]["v"]) + (1 if a["closed"] else 0)
             return ("cs", cs_in(chr(c) for c in range(lo, hi)))
         if k == "path":
+            cst_ = self.resolve_const(a, env, kinds=("lit", "range", "array", "tuple"))
+            if cst_ is not a and cst_.get("k") in ("lit", "range", "array", "tuple"):
+                # a named character class: `const OCTAL_DIGIT: RangeInclusive<char> = '0'..='7';`
+                return self.pred(cst_, env)
             segs = a["segs"]
             if segs[-1] == "is_alpha" and "AsChar" in segs:
                 return ("cs", cs_in(ALPHA))
